@@ -73,8 +73,11 @@ func analyzeFold(p *core.Program, fi *core.FuncInfo) *foldLoop {
 	// locate the loop
 	li := -1
 	for i, s := range body {
-		if _, ok := s.(*ast.ForStmt); ok {
+		switch s.(type) {
+		case *ast.ForStmt, *ast.RangeStmt:
 			li = i
+		}
+		if li >= 0 {
 			break
 		}
 	}
@@ -82,7 +85,6 @@ func analyzeFold(p *core.Program, fi *core.FuncInfo) *foldLoop {
 		out.Why = "no byte loop"
 		return out
 	}
-	loop := body[li].(*ast.ForStmt)
 	// pre-loop statements (skip `sz := len(bytes)`)
 	var lenVar types.Object
 	for _, s := range body[:li] {
@@ -102,37 +104,58 @@ func analyzeFold(p *core.Program, fi *core.FuncInfo) *foldLoop {
 			return out
 		}
 	}
-	// canonical loop: for i := 0; i < sz|len(bytes); i++
-	init, ok1 := loop.Init.(*ast.AssignStmt)
-	cond, ok2 := loop.Cond.(*ast.BinaryExpr)
-	post, ok3 := loop.Post.(*ast.IncDecStmt)
-	if !ok1 || !ok2 || !ok3 || cond.Op != token.LSS || post.Tok != token.INC || len(init.Rhs) != 1 {
-		out.Why = "loop is not `for i := 0; i < n; i++`"
-		return out
-	}
-	if tv, ok := info.Types[init.Rhs[0]]; !ok || tv.Value == nil || constant.Compare(tv.Value, token.NEQ, constant.MakeInt64(0)) {
-		out.Why = "loop does not start at byte 0"
-		return out
-	}
-	iobj := info.ObjectOf(init.Lhs[0].(*ast.Ident))
-	boundOK := false
-	switch b := ast.Unparen(cond.Y).(type) {
-	case *ast.Ident:
-		o := info.ObjectOf(b)
-		boundOK = o == lenVar || isLenIf(info, fi, o)
-	case *ast.CallExpr:
-		if id, ok := b.Fun.(*ast.Ident); ok && id.Name == "len" {
-			boundOK = true
+	// the loop visits the bytes 0..len-1 in order: either the canonical counted loop
+	// `for i := 0; i < sz|len(bytes); i++ { b := bytes[i] ... }` or `for _, b := range bytes`
+	var iobj, bobj types.Object
+	var loopBody *ast.BlockStmt
+	switch loop := body[li].(type) {
+	case *ast.RangeStmt:
+		if loop.Value == nil {
+			// for i := range bytes { b := bytes[i] }
+			if kid, ok := loop.Key.(*ast.Ident); ok {
+				iobj = info.ObjectOf(kid)
+			}
+		} else if vid, ok := loop.Value.(*ast.Ident); ok {
+			bobj = info.ObjectOf(vid)
 		}
-	}
-	if !boundOK {
-		out.Why = "loop bound is not the length of the input"
-		return out
+		if !isByteSliceOrString(info.TypeOf(loop.X)) {
+			out.Why = "range loop is not over the input bytes"
+			return out
+		}
+		loopBody = loop.Body
+	case *ast.ForStmt:
+		init, ok1 := loop.Init.(*ast.AssignStmt)
+		cond, ok2 := loop.Cond.(*ast.BinaryExpr)
+		post, ok3 := loop.Post.(*ast.IncDecStmt)
+		if !ok1 || !ok2 || !ok3 || cond.Op != token.LSS || post.Tok != token.INC || len(init.Rhs) != 1 {
+			out.Why = "loop is not `for i := 0; i < n; i++`"
+			return out
+		}
+		if tv, ok := info.Types[init.Rhs[0]]; !ok || tv.Value == nil || constant.Compare(tv.Value, token.NEQ, constant.MakeInt64(0)) {
+			out.Why = "loop does not start at byte 0"
+			return out
+		}
+		iobj = info.ObjectOf(init.Lhs[0].(*ast.Ident))
+		boundOK := false
+		switch b := ast.Unparen(cond.Y).(type) {
+		case *ast.Ident:
+			o := info.ObjectOf(b)
+			boundOK = o == lenVar || isLenIf(info, fi, o)
+		case *ast.CallExpr:
+			if id, ok := b.Fun.(*ast.Ident); ok && id.Name == "len" {
+				boundOK = true
+			}
+		}
+		if !boundOK {
+			out.Why = "loop bound is not the length of the input"
+			return out
+		}
+		loopBody = loop.Body
 	}
 	// find the accumulator: the variable assigned in the body that is also live before the loop
 	var acc types.Object
-	ast.Inspect(loop.Body, func(n ast.Node) bool {
-		if as, ok := n.(*ast.AssignStmt); ok && as.Tok == token.ASSIGN {
+	ast.Inspect(loopBody, func(n ast.Node) bool {
+		if as, ok := n.(*ast.AssignStmt); ok && as.Tok != token.DEFINE {
 			if id, ok := as.Lhs[0].(*ast.Ident); ok {
 				if o := info.ObjectOf(id); fr.Lookup(o) != nil {
 					acc = o
@@ -151,11 +174,14 @@ func analyzeFold(p *core.Program, fi *core.FuncInfo) *foldLoop {
 	out.AccName = acc.Name()
 	// one symbolic iteration
 	fr.Bind(acc, &bits.Value{V: bits.Input("acc", out.Width), Sign: iv.Sign})
-	for _, s := range loop.Body.List {
+	if bobj != nil {
+		fr.Bind(bobj, &bits.Value{V: bits.Input("b", 8)})
+	}
+	for _, s := range loopBody.List {
 		// b := bytes[i]
 		if as, ok := s.(*ast.AssignStmt); ok && len(as.Rhs) == 1 {
 			if ix, ok := as.Rhs[0].(*ast.IndexExpr); ok {
-				if id, ok := ix.Index.(*ast.Ident); ok && info.ObjectOf(id) == iobj {
+				if id, ok := ix.Index.(*ast.Ident); ok && iobj != nil && info.ObjectOf(id) == iobj {
 					if lid, ok := as.Lhs[0].(*ast.Ident); ok {
 						fr.Bind(info.ObjectOf(lid), &bits.Value{V: bits.Input("b", 8)})
 						continue
@@ -186,6 +212,20 @@ func analyzeFold(p *core.Program, fi *core.FuncInfo) *foldLoop {
 	out.Final = fr.Returned().V
 	out.Tables = ip.Tables
 	return out
+}
+
+func isByteSliceOrString(t types.Type) bool {
+	if t == nil {
+		return false
+	}
+	switch u := t.Underlying().(type) {
+	case *types.Slice:
+		b, ok := u.Elem().Underlying().(*types.Basic)
+		return ok && b.Kind() == types.Uint8
+	case *types.Basic:
+		return u.Info()&types.IsString != 0
+	}
+	return false
 }
 
 func isLenIf(info *types.Info, fi *core.FuncInfo, o types.Object) bool {
